@@ -202,9 +202,92 @@ def gen_la(r):
                 oracle_logic="ALL", body=body)
 
 
+# ---------------------------------------------------------------------------------------------
+# terms that are not plain variables inside arithmetic atoms of a restricted logic: applications of
+# uninterpreted functions / predicates (the logic has no UF), ite terms, div / mod by a constant
+# ---------------------------------------------------------------------------------------------
+def gen_opaque(r):
+    logic = r.choice(["QF_RDL", "QF_IDL", "QF_LRA", "QF_LIA"])
+    real = logic in ("QF_RDL", "QF_LRA")
+    dl = "DL" in logic
+    s = "Real" if real else "Int"
+    kinds = ["uf-app", "uf-app", "uf-pred", "ite"] + ([] if real else ["divmod"])
+    cls = r.choice(kinds)
+    x, y, z = r.sample(["x", "y", "z", "w"], 3)
+    cmds = ["(set-option :produce-models true)", "(set-logic %s)" % logic] + ["(declare-fun %s () %s)" % (v, s) for v in "xyzw"]
+    k = r.randint(-2, 3)
+    eq = r.choice([["(<= %s %s)" % (x, y), "(<= %s %s)" % (y, x)], ["(<= (- %s %s) 0)" % (x, y), "(>= (- %s %s) 0)" % (x, y)]])
+    twin = None
+    if cls == "uf-app":
+        cmds.append("(declare-fun f (%s) %s)" % (s, s))
+        form = r.random()
+        if form < 0.45:        # unsatisfiable through congruence only
+            body = eq + ["(%s (f %s) (f %s))" % (r.choice(["<", ">"]), x, y)]
+        elif form < 0.7:       # f(x) - f(y) bounded both ways, x = y: unsat through congruence
+            body = eq + ["(>= (- (f %s) (f %s)) %s)" % (x, y, lit(abs(k) + 1))]
+        elif form < 0.85:      # satisfiable
+            body = eq + ["(<= (- (f %s) %s) %s)" % (x, z, lit(k)), "(>= (f %s) %s)" % (y, lit(k))]
+        else:
+            body = ["(<= (- (f %s) (f %s)) %s)" % (x, y, lit(k)), "(< (- %s %s) %s)" % (x, y, lit(k))]
+        twin = {"QF_RDL": "QF_UFRDL", "QF_IDL": "QF_UFIDL", "QF_LRA": "QF_UFLRA", "QF_LIA": "QF_UFLIA"}[logic]
+    elif cls == "uf-pred":
+        cmds.append("(declare-fun p (%s) Bool)" % s)
+        body = eq + ["(p %s)" % x, "(not (p %s))" % y] if r.random() < 0.6 else eq + ["(p %s)" % x, "(p %s)" % z, "(< %s %s)" % (z, lit(k))]
+        twin = {"QF_RDL": "QF_UFRDL", "QF_IDL": "QF_UFIDL", "QF_LRA": "QF_UFLRA", "QF_LIA": "QF_UFLIA"}[logic]
+    elif cls == "ite":
+        cmds.append("(declare-fun b () Bool)")
+        d = r.choice([-1, 0])
+        body = ["(<= (- (ite b %s %s) %s) %s)" % (x, y, z, lit(k)), "(>= (- %s %s) %s)" % (x, z, lit(k + 1 + d)), "(>= (- %s %s) %s)" % (y, z, lit(k + 1 + d))]
+        twin = {"QF_RDL": "QF_LRA", "QF_IDL": "QF_LIA"}.get(logic)
+    else:
+        c = r.choice([2, 3])
+        body = ["(%s (- (%s %s %d) %s) %s)" % (r.choice(["<=", ">="]), r.choice(["div", "mod"]), x, c, y, lit(k)), "(>= %s %s)" % (x, lit(5 * k)), "(<= %s %s)" % (y, lit(-k))]
+        twin = {"QF_IDL": "QF_LIA"}.get(logic)
+    if r.random() < 0.5:
+        body.append(dl_proper(r, ["x", "y", "z", "w"]))
+    cmds += ["(assert %s)" % b for b in body] + ["(check-sat)", "(get-model)"]
+    return dict(cmds=cmds, logic=logic, cls="opaque:" + cls, twin=twin, family="opaque", oracle_logic="ALL", body=body)
+
+
+# ---------------------------------------------------------------------------------------------
+# multi-step variants: the same (possibly offending) atoms reach the solver more than once
+# ---------------------------------------------------------------------------------------------
+def multistep(r, d):
+    """Rewrites d['cmds'] (prelude, assertions, one check-sat, get-model) into a script with several check-sats."""
+    cmds = d["cmds"]
+    first = min(k for k, c in enumerate(cmds) if c.startswith("(assert"))
+    pre, asserts = cmds[:first], [c for c in cmds[first:] if c.startswith("(assert")]
+    if not asserts:
+        return d
+    kind = r.choice(["check2", "check3", "push-pop-again", "pop-check", "grow"])
+    if kind == "check2":
+        body = asserts + ["(check-sat)", "(check-sat)", "(get-model)"]
+    elif kind == "check3":
+        cut = r.randint(1, len(asserts))
+        body = asserts[:cut] + ["(check-sat)"] + asserts[cut:] + ["(check-sat)", "(check-sat)", "(get-model)"]
+    elif kind == "push-pop-again":
+        cut = r.randint(0, len(asserts) - 1)
+        base, frame = asserts[:cut], asserts[cut:]
+        body = base + ["(push 1)"] + frame + ["(check-sat)", "(pop 1)", "(check-sat)", "(push 1)"] + frame + ["(check-sat)", "(get-model)"]
+    elif kind == "pop-check":
+        cut = r.randint(0, len(asserts) - 1)
+        body = asserts[:cut] + ["(push 1)"] + asserts[cut:] + ["(check-sat)", "(pop 1)", "(check-sat)", "(get-model)"]
+    else:
+        body = []
+        for a in asserts:
+            body += [a, "(check-sat)"]
+        body += ["(get-model)"]
+    d = dict(d)
+    d["cmds"] = pre + body
+    d["steps"] = kind
+    return d
+
+
 def gen(r):
     k = r.random()
-    d = gen_dl(r) if k < 0.6 else (gen_uf_arith(r) if k < 0.7 else gen_la(r))
+    d = gen_dl(r) if k < 0.45 else (gen_opaque(r) if k < 0.65 else (gen_uf_arith(r) if k < 0.72 else gen_la(r)))
+    if r.random() < 0.4:
+        d = multistep(r, d)
     d["text"] = with_marks(d["cmds"])
     return d
 
